@@ -13,7 +13,7 @@ def INCLUDE(name):
     m = re.match(r"(C\d\d)\.", name)
     if m is not None:
         return m.group(1) == "C09"
-    return ".loop" in name and name.split(".loop")[0] in LOOP_FUNCTIONS
+    return ".loop" in name
 
 
 def replay(ob):
